@@ -10,7 +10,7 @@
 (*    PHYSICAL component 1 = x, 2 = y, 3 = z (SophT: vector_field[k-1]).   *)
 (*  - physical axis k lives on array axis Ax(k) = D + 1 - k.               *)
 (***************************************************************************)
-EXTENDS Integers, Sequences, FiniteSets
+EXTENDS Integers, Sequences, FiniteSets, Functions
 
 CONSTANT Shape          \* <<NY, NX>> or <<NZ, NY, NX>>
 
@@ -51,9 +51,8 @@ VZero         == [k \in 1..D |-> Zero]
 OnRegion(R, out, Val(_)) == [c \in Cells |-> IF c \in R THEN Val(c) ELSE out[c]]
 OnRing(w, out, Val(_))   == [c \in Cells |-> IF InRing(c, w) THEN Val(c) ELSE out[c]]
 
-RECURSIVE SumSet(_, _)
-SumSet(f, S) == IF S = {} THEN 0 ELSE LET c == CHOOSE x \in S : TRUE IN f[c] + SumSet(f, S \ {c})
-Total(f) == SumSet(f, Cells)
+\* sum of a field over the grid (FoldFunction: CommunityModules, evaluated natively by TLC)
+Total(f) == FoldFunction(LAMBDA a, b : a + b, 0, f)
 
 \* conversion to nested sequences (array order) for JSON emission
 Arr(f) == IF D = 2 THEN [i \in 1..Shape[1] |-> [j \in 1..Shape[2] |-> f[<<i, j>>]]]
